@@ -40,6 +40,7 @@ def product_on_state(s, sidx, text='hostile'):
 def run(s):
     K.suite_workload(s)
     K.fixtures_workload(s)
+    K.collision_cases(s)
     K.large_cases(s, 24 if s.tier == 'quick' else 600, 'both')
     K.pair_histories(s)
     K.resend_after_reorder(s, 4 if s.tier == 'quick' else 5)
